@@ -523,9 +523,20 @@ func firstLine(s string) string {
 func trimErr(err error) string {
 	s := firstLine(err.Error())
 	var sb strings.Builder
+	inq := false
 	for i := 0; i < len(s); i++ {
 		c := s[i]
-		if c >= '0' && c <= '9' || (c >= 'a' && c <= 'f' && i+8 < len(s) && isHex(s[i:i+8])) {
+		if c == '"' {
+			inq = !inq
+			if inq {
+				sb.WriteString("\"…\"")
+			}
+			continue
+		}
+		if inq {
+			continue
+		}
+		if c >= '0' && c <= '9' {
 			if sb.Len() == 0 || sb.String()[sb.Len()-1] != '#' {
 				sb.WriteByte('#')
 			}
@@ -538,16 +549,6 @@ func trimErr(err error) string {
 		out = out[:140]
 	}
 	return out
-}
-
-func isHex(s string) bool {
-	for i := 0; i < len(s); i++ {
-		c := s[i]
-		if !(c >= '0' && c <= '9' || c >= 'a' && c <= 'f') {
-			return false
-		}
-	}
-	return true
 }
 
 // ---------------------------------------------------------------------------
@@ -569,7 +570,7 @@ func stageL1(r *vf.Run) {
 	}
 	defer closeMS()
 	e := &l1Env{r: r, dbStore: ms, scratch: r.Scratch}
-	nBlobs := r.N(12, 120)
+	nBlobs := r.N(8, 64)
 	perClass := r.N(1, 2)
 	caseNo := uint64(0)
 	for bi := 0; bi < nBlobs; bi++ {
